@@ -99,7 +99,36 @@ def mkarg(tok):
         return so.mkvec_float(tok[2:]).scale(0.07)
     if tok.startswith("F:"):
         return float(tok[2:])
+    if tok.startswith("V:"):          # explicit vector: V:<name>=<value>,...
+        import vector
+        return vector.obj(**{kv.split("=")[0]: float(kv.split("=")[1]) for kv in tok[2:].split(",")})
     return so.mkvec_float(tok)
+
+
+CLOSE_SRC = ("def f(v, w):\n    return (v.isclose(w), v.isclose(w, 1e-3, 1e-9), v.isclose(w, 1e-9, 1e-3), v.isclose(w, 1e-9, 1e-9), v.isclose(w, 0.0, 1.0),"
+             " v.equal(w), v.not_equal(w), v == w, v != w, v.is_parallel(w), v.is_parallel(w, 1e-9), v.is_antiparallel(w), v.is_perpendicular(w),"
+             " v.is_perpendicular(w, 0.5))\n")
+
+
+def closeness_jobs(r, tier):
+    """near-equal operand pairs in every stored system (large magnitudes with a relative difference between the default rtol and atol
+    regimes; tiny magnitudes with an absolute difference between them; exactly equal): closeness / equality / angle predicates with default
+    and explicit tolerances must give the same truth values compiled and interpreted"""
+    jobs = []
+    sigs = C.ALLSIGS if tier == "thorough" else [s for d in (2, 3, 4) for s in r.sample(C.SIGS[d], 3 if d == 4 else 2)]
+    for sig in sigs:
+        fl = r.choice("gm")
+        names = C.field_names(fl, sig)
+        base = {"x": 3.0, "y": -4.0, "rho": 5.0, "phi": 0.7, "z": 2.0, "theta": 1.1, "eta": 0.6, "t": 9.0, "tau": 6.5}
+        vals = [base[GENNAME.get(nm, nm)] for nm in names]
+        for scale, rel, absd in ((300.0, 5e-6, 0.0), (1e-6, 0.0, 3e-6), (1.0, 0.0, 0.0), (1.0, 5e-7, 0.0), (40.0, 2e-4, 0.0)):
+            a = [x * scale if GENNAME.get(nm, nm) not in ("phi", "theta", "eta") else x for x, nm in zip(vals, names)]
+            b = [x * (1 + rel) + absd for x in a]
+            jobs.append((CLOSE_SRC, ["V:" + ",".join(f"{n}={x!r}" for n, x in zip(names, a)), "V:" + ",".join(f"{n}={x!r}" for n, x in zip(names, b))]))
+    return jobs
+
+
+GENNAME = {"px": "x", "py": "y", "pt": "rho", "pz": "z", "E": "t", "e": "t", "energy": "t", "M": "tau", "m": "tau", "mass": "tau"}
 
 
 # ---- API sweep: EVERY attribute and method numba's typing context resolves on a vector type, with argument templates
@@ -409,6 +438,7 @@ def correspondence(ctx):
             toks = [symobj.vtoken(fl, r.choice(C.SIGS[d or d0]), i + 1) for i, d in enumerate(dims)]    # same flavor: mixed flavor is the known finding
             jobs.append((src, toks))
     jobs.append(("def f(v, w):\n    return v.add(w)\n", ["g:xy:-:-:1", "m:rhophi:-:-:2"]))       # the known finding, for the record
+    jobs += closeness_jobs(r, ctx.tier)
     ajobs, n_api_expr, untemplated = api_jobs(r, ctx.tier)
     with mp.get_context("spawn").Pool(min(14, os.cpu_count() or 4)) as pool:
         results = pool.map(probe_worker, jobs)
@@ -430,7 +460,7 @@ def correspondence(ctx):
             fails.append({"key": "numba-awkward-probe", "what": dis[-1][:300], "code": None})
     known = 0
     for src, toks, interp, comp in results:
-        mixed = len({t[2:][0] if t.startswith("B:") else t[0] for t in toks if not t.startswith("T:")}) > 1
+        mixed = len({t[2:][0] if t.startswith("B:") else t[0] for t in toks if not t.startswith(("T:", "V:"))}) > 1
         if not same(interp, comp):
             if mixed:
                 known += 1
